@@ -40,6 +40,8 @@ def plan(tier, seed):
               for k in range(16)]
         b += [{'id': f'b{k}', 'mode': 'banded', 'k': k, 'n': 400}
               for k in range(8)]
+        b += [{'id': f'i{k}', 'mode': 'insitu', 'k': k, 'n': 5}
+              for k in range(8)]
         return b
     b = [{'id': f's{k}', 'mode': 'smooth', 'k': k, 'n': 220}
          for k in range(180)]
@@ -51,6 +53,10 @@ def plan(tier, seed):
            'boundscheck': True} for k in range(16)]
     b += [{'id': f'bcb{k}', 'mode': 'banded', 'k': 7100+k, 'n': 300,
            'boundscheck': True} for k in range(4)]
+    b += [{'id': f'i{k}', 'mode': 'insitu', 'k': k, 'n': 16}
+          for k in range(48)]
+    b += [{'id': f'bci{k}', 'mode': 'insitu', 'k': 7200+k, 'n': 5,
+           'boundscheck': True} for k in range(8)]
     return b
 
 
@@ -419,9 +425,94 @@ def run_pyfunc(rec, r, tag):
         rec.event('captured_systems')
 
 
+def insitu(rec, seed, k, i, tier):
+    """Judge every 4th smoothing() call of a live solve on the level it
+    happens on: last block exact w.r.t. the operator assembled from the
+    level's own coefficients, tangential boundary values untouched."""
+    import contextlib
+    import io
+    import emg3d
+    from emg3d import solver
+    from vf import refop
+    r = gen.rng(seed, 'C03', 'insitu', k, i)
+    sizes = [4, 6, 8, 8, 12, 16] if tier == 'quick' else [4, 6, 8, 12, 16, 20,
+                                                          24]
+    shape = tuple(int(gen.choice(r, sizes)) for _ in range(3))
+    gs = gen.grid_spec(r, shape)
+    ms = gen.model_spec(r, shape, eps=False)
+    freq = gen.frequency(r)
+    grid, model = gen.build_emg3d(gs, ms)
+    src = (float(np.mean(grid.nodes_x[1:-1])), float(np.mean(grid.nodes_y[1:-1])),
+           float(np.mean(grid.nodes_z[1:-1])), 30.0, 20.0)
+    sf = emg3d.get_source_field(grid, src, freq)
+    kw = {'sslsolver': gen.choice(r, [False, False, True]),
+          'semicoarsening': gen.choice(r, [False, True, 1, 2, 3, 123]),
+          'linerelaxation': gen.choice(r, [False, True, 1, 2, 3, 4, 5, 6, 7]),
+          'cycle': gen.choice(r, ['F', 'V', 'W']), 'maxit': 2, 'verb': -1,
+          'nu_pre': int(r.integers(1, 4)), 'nu_post': int(r.integers(1, 4))}
+    case = {'k': k, 'i': i, 'shape': shape, 'kw': kw, 'frequency': freq,
+            'case': ms['case']}
+    orig = solver.smoothing
+    state = {'n': 0}
+
+    def w_smoothing(model_, sfield_, efield_, nu, lr_dir):
+        state['n'] += 1
+        if state['n'] % 4 != 1 or nu < 1:
+            return orig(model_, sfield_, efield_, nu, lr_dir)
+        lshape = tuple(model_.grid.shape_cells)
+        if np.prod(lshape) > 4500:            # keep the level oracle cheap
+            return orig(model_, sfield_, efield_, nu, lr_dir)
+        e0 = np.array(efield_.field)
+        orig(model_, sfield_, efield_, nu, lr_dir)
+        e1 = np.array(efield_.field)
+        ref = refop.RefOp(*model_.grid.h, None, None, None, 1.0,
+                          volume_arrays={'eta_x': model_.eta_x,
+                                         'eta_y': model_.eta_y,
+                                         'eta_z': model_.eta_z,
+                                         'zeta': model_.zeta})
+        inn = ref.interior
+        rec.event('insitu_smoothing_calls')
+        if not np.array_equal(e1[~inn], e0[~inn]):
+            rec.violation('C03:boundary-written', f'in situ: smoothing on '
+                          f'level grid {lshape} changed tangential boundary '
+                          f'values (lr_dir={lr_dir})', case)
+            return
+        sv = np.array(sfield_.field)
+        res = sv - ref.A @ e1
+        scale = float((abs(ref.A) @ np.abs(e1) + np.abs(sv)).max()) + 1e-300
+        dirs = effective_dirs(int(lr_dir), lshape)
+        blocks = (node_blocks(lshape) if not dirs else
+                  line_blocks(lshape, dirs[-1]))
+        if not blocks:
+            return
+        best = min(float(np.abs(res[idx]).max()/scale)
+                   for idx in blocks.values())
+        rec.event('last_block_checks')
+        rec.margin('insitu_best_block_residual_rel', best)
+        rec.distinct(('insitu', lshape, int(lr_dir), nu % 2, str(e1.dtype)))
+        if not (best <= TAU_BLK):
+            rec.violation('C03:last-block-not-exact', f'in situ: after '
+                          f'smoothing(nu={nu}, lr_dir={lr_dir}) on level grid '
+                          f'{lshape} no block satisfies its equations (best '
+                          f'{best:.3e})', case)
+
+    solver.smoothing = w_smoothing
+    try:
+        with contextlib.redirect_stdout(io.StringIO()):
+            emg3d.solve(model, sf, **kw)
+    finally:
+        solver.smoothing = orig
+    rec.case()
+    rec.event('insitu_solves')
+
+
 def run_batch(batch):
     rec = common.Rec()
     big = batch['tier'] == 'thorough'
+    if batch['mode'] == 'insitu':
+        for i in range(batch['n']):
+            insitu(rec, batch['seed'], batch['k'], i, batch['tier'])
+        return rec.result()
     for i in range(batch['n']):
         r = gen.rng(batch['seed'], 'C03', batch['mode'], batch['k'], i)
         tag = f"{batch['mode']}:{batch['k']}:{i}"
@@ -439,7 +530,8 @@ def finalize(merged, tier):
         'fixed_point_checks': 1000, 'last_block_checks': 2000,
         'affine_checks': 1000, 'sentinel_checks': 1000,
         'banded_solves': 2000, 'captured_systems': 300,
-        'pyfunc_kernel_runs': 100, 'sweep_alternation_checks': 1000})
+        'pyfunc_kernel_runs': 100, 'sweep_alternation_checks': 1000,
+        'insitu_smoothing_calls': 100})
     if len(merged['extra'].get('set:lr_codes', [])) < 8:
         merged['inconclusive'].append({'reason': 'not all lr codes 0..7 seen',
                                        'case': None})
